@@ -18,3 +18,5 @@ example :
 example :
     compactKey ⟨true, false, 0, 9⟩ [1] [⟨2, .delete, 2⟩, ⟨1, .set, 1⟩] = [⟨2, .delete, 2⟩, ⟨1, .set, 1⟩] := by decide
 example : compactKey ⟨true, false, 0, 9⟩ [5] [⟨2, .delete, 2⟩, ⟨1, .set, 1⟩] = [] := by decide
+#print axioms C01_begin_atomic_with_capture
+#print axioms fixed_begin_raced_with_compaction_capture
